@@ -454,6 +454,35 @@ func checkC14(r *Run) {
 		judge(g, "repeated-runs", g.cases[:runs])
 		judge(g, "config-order", append([]*pipeline.Case{g.cases[0]}, g.cases[runs:]...))
 	}
+	// the response is a function of THIS request only: the same descriptor generated for package alpha, then
+	// beta, then alpha again (one process after the other) carries the package clause of its own request
+	{
+		var prev []byte
+		for k, target := range []string{"alphapkg", "betapkg", "alphapkg", "gammapkg"} {
+			e := descgen.K5()
+			e.Cfg.TargetPackageName = target
+			c := caseFrom(e)
+			c.NoWrite = true
+			c.Name = "k5_target_seq" // same config file name and file name every time
+			r.WS.Prepare(c)
+			r.WS.Generate(c)
+			r.Evaluations++
+			r.Counters["sequential-runs-with-another-target-package"]++
+			if c.GenErr != "" {
+				r.violate("run-failed", c.Name, "", target, "plugin run failed: "+c.GenErr, nil)
+				break
+			}
+			if c.TFPackage != target {
+				r.violate("state-between-runs/package-clause", c.Name, "", target, fmt.Sprintf("run %d asked for package %q, the file says package %q", k, target, c.TFPackage), nil)
+			}
+			if k == 2 && prev != nil && sha(prev) != sha(c.Plugin.Stdout) {
+				r.violate("state-between-runs/response", c.Name, "", target, "the same request gave another response after a run with a different target package", nil)
+			}
+			if k == 0 {
+				prev = c.Plugin.Stdout
+			}
+		}
+	}
 	if len(groups) > 0 {
 		g := groups[0]
 		r.sample(map[string]interface{}{"request": g.name, "runs": runs, "shuffled_configs": shuffles, "sha256": sha(g.cases[0].Plugin.Stdout),
@@ -498,6 +527,12 @@ func checkC14(r *Run) {
 func checkC16(r *Run) {
 	type mk = func() *descgen.Entry
 	cfgs := []mk{descgen.K1, descgen.K9,
+		// a custom duration type that is not called `Duration`
+		func() *descgen.Entry {
+			e := descgen.K1()
+			e.Cfg.DurationCustomType = "BillingDuration"
+			return descgen.Rename(e, "k1billing")
+		},
 		// list entries written with the struct package as a prefix name nothing (on either channel)
 		func() *descgen.Entry {
 			e := descgen.K5()
